@@ -204,6 +204,9 @@ func runC09(c *Ctx) {
 	checkErrorDiscipline(c, p, "R09.4")
 	// action text becomes Go only if every $-reference is rewritten, whatever surrounds it
 	checkSDTVal(c, p, "R09.5")
+	// a recovered panic would turn an aborted generation into status zero
+	checkExitCodes(c, p, "R09.6")
+	checkPackagePath(c, p, "R09.7")
 	c.Assumptions = append(c.Assumptions, "the -p package path is a valid import path; the file header and the action expressions are valid Go (the property's premise)",
 		"NOT decided: termination of gocc for every input (Emoves, Closure, GetItemSets are worklist loops over unbounded grammars)",
 		"go/format either fails or returns an equivalent program")
@@ -709,4 +712,72 @@ func comparedWithNil(v ssa.Value) bool {
 		}
 	}
 	return false
+}
+
+// ---- R09.7: the import path the generated files use is the one of the directory they are written to ----
+
+func checkPackagePath(c *Ctx, p *Prog, rule string) {
+	fn := p.Func("internal/config", "*ConfigRecord.getFlags")
+	if fn == nil {
+		c.Undecided(rule, "config getFlags", "function not found")
+		return
+	}
+	for _, wd := range []struct {
+		name          string
+		sameDir, fail bool
+	}{{"output directory = working directory", true, false}, {"output directory elsewhere", false, false}, {"output directory elsewhere, no module / GOPATH root found", false, true}} {
+		var calls []string
+		sm := map[string]Summary{
+			"*.Bool": func(r *Run, cc *ssa.CallCommon, args []Val) (Val, error) {
+				return VPtr{r.NewObj("flag:"+render(args[0]), false), ""}, nil
+			},
+			"*.StringVar": func(r *Run, cc *ssa.CallCommon, args []Val) (Val, error) {
+				// the flag package writes the default now and the user's value in Parse
+				if pv, ok := args[0].(VPtr); ok {
+					r.SetCell(pv.Obj.Name, pv.Path, VOpq{"flagvalue(-" + strings.Trim(render(args[1]), `"`) + ")"})
+				}
+				return VTuple{}, nil
+			},
+			"*.Parse": func(r *Run, cc *ssa.CallCommon, args []Val) (Val, error) { return VTuple{}, nil },
+			"*.Args":  func(r *Run, cc *ssa.CallCommon, args []Val) (Val, error) { return VSlice{Name: "ARGS", Len: intConst(1)}, nil },
+			"*.Arg":   func(r *Run, cc *ssa.CallCommon, args []Val) (Val, error) { return VOpq{"ARG0"}, nil },
+			"*.getOutDir": func(r *Run, cc *ssa.CallCommon, args []Val) (Val, error) {
+				return VOpq{"OUTDIR"}, nil
+			},
+			"*.defaultPackage": func(r *Run, cc *ssa.CallCommon, args []Val) (Val, error) {
+				calls = append(calls, "defaultPackage("+render(args[0])+")")
+				if wd.fail && render(args[0]) == "OUTDIR" {
+					return VTuple{VOpq{"nopkg"}, VIface{Dyn: types.Typ[types.String], V: VOpq{"ERR"}}}, nil
+				}
+				return VTuple{VOpq{"pkgof(" + render(args[0]) + ")"}, VIface{}}, nil
+			},
+			"*.Errorf": func(r *Run, cc *ssa.CallCommon, args []Val) (Val, error) {
+				return VIface{Dyn: types.Typ[types.String], V: VOpq{"error"}}, nil
+			},
+			"*.New": func(r *Run, cc *ssa.CallCommon, args []Val) (Val, error) {
+				return VIface{Dyn: types.Typ[types.String], V: VOpq{"error"}}, nil
+			},
+		}
+		reg := &Region{Fn: fn, Summaries: sm}
+		w := &MapWorld{Strs: map[string]string{"OUTDIR": "/w/out", "this.workingDir": "/w"}, AtomFn: func(k string) (bool, bool) { return false, true }}
+		if wd.sameDir {
+			w.Strs["OUTDIR"] = "/w"
+		}
+		out := InterpretSafe(reg, w)
+		pkg := out.Stores["this.pkg"]
+		var ok bool
+		var want string
+		switch {
+		case wd.sameDir:
+			want = "the package stays what -p says (default: the working directory's package)"
+			ok = out.Term == "return" && (pkg == "" || pkg == "flagvalue(-p)") // not overwritten
+		case wd.fail:
+			want = "an error is returned (or the user's -p value is used as it is)"
+			ok = out.Term == "return" && len(out.Results) == 1 && ((out.Results[0] != "nil" && !strings.Contains(out.Results[0], "nil:")) || pkg == "" || pkg == "flagvalue(-p)")
+		default:
+			want = "the package is the import path of the output directory: defaultPackage(outDir)"
+			ok = out.Term == "return" && pkg == "pkgof(OUTDIR)"
+		}
+		stepOb(c, out, rule, "config getFlags: "+wd.name, ok, fmt.Sprintf("%s this.pkg=%q calls=%v %s; required: %s — the generated files import <pkg>/token, <pkg>/errors, ... and are written below the output directory", termOf(out), pkg, calls, out.Undecided, want), p.FnPos(fn))
+	}
 }
